@@ -189,7 +189,7 @@ func selftestSensitivity(args []string) int {
 		if len(args) > 0 {
 			keep := false
 			for _, a := range args {
-				if strings.Contains(name, a) {
+				if strings.HasPrefix(name, a) {
 					keep = true
 				}
 			}
